@@ -2,9 +2,9 @@ package props
 
 import (
 	"bytes"
-	"net/textproto"
 	"fmt"
 	"hash/fnv"
+	"net/textproto"
 	"os"
 	"os/exec"
 	"path/filepath"
